@@ -69,6 +69,10 @@ def paletteWire : List (String × String) := [
   ("ch-lam", "c955"),
   ("ch-ss", "c223"),
   ("ch-max", "c1114111"),
+  ("ch-arab3", "c1635"),
+  ("ch-half", "c189"),
+  ("ch-roman4", "c8547"),
+  ("ch-fw5", "c65301"),
   ("s-empty", "str:-"),
   ("s-a", "str:97"),
   ("s-abc", "str:97,98,99"),
